@@ -95,6 +95,22 @@ NCgenio(NC *handle, int varid, const long *start, const long *count, const long 
         }
 
         /*
+         * Verify the edge lengths.  The odometer below performs its first
+         * transfer before it looks at the stop indexes, so an edge that
+         * selects nothing must be dealt with here.
+         */
+        for (idim = 0; idim <= maxidim; ++idim) {
+            if (mycount[idim] < 0) {
+                NCadvise(NC_EINVAL, "Negative count");
+                return -1;
+            }
+        }
+        for (idim = 0; idim <= maxidim; ++idim) {
+            if (mycount[idim] == 0)
+                return 0; /* empty hyperslab: nothing to transfer */
+        }
+
+        /*
          * As an optimization, adjust I/O parameters when the fastest
          * dimension has unity stride both externally and internally.
          * In this case, the user could have called a simpler routine
